@@ -125,7 +125,7 @@ export function* generate({ tier, seed }) {
   for (let i = 0; i < nLists; i++) {
     const len = 1 + rng.int(3);
     const entries = [];
-    for (let j = 0; j < len; j++) entries.push([rng.pick(TARGETS), rng.pick(['none', 'strSecond', 'computedSecond']), rng.pick(['none', 'arrayList', 'arrayEmpty'])]);
+    for (let j = 0; j < len; j++) entries.push([rng.pick(TARGETS), rng.pick(['none', 'strSecond', 'strSecond', 'strSecond', 'strSecond', 'computedSecond']), rng.pick(['none', 'arrayList', 'arrayEmpty'])]); // computed arguments hit a known finding: keep them rare
     // at most one entry without an argument (two would both bind modelValue)
     if (entries.filter((e) => e[1] === 'none').length > 1) continue;
     const host = rng.pick(['component', 'componentUnbound']);
